@@ -15,11 +15,17 @@ IDENT_CALLS = ("into", "clone", "deref", "deref_mut", "borrow", "borrow_mut", "a
 
 
 class Exec:
-    def __init__(self, facts, body, rhs_kind, by_value, self_fields=None, depth=0):
+    def __init__(self, facts, body, rhs_kind, by_value, self_fields=None, depth=0, opt_case=None):
         self.f = facts
         self.b = body
         self.depth = depth
+        # Option-valued fields: which of them are Some in the case being executed, e.g. {"self.shifted_rand": True}
+        self.opt_case = opt_case or {}
         self.fields = self_fields if self_fields is not None else {}
+        for k, present in self.opt_case.items():
+            who, name = k.split(".", 1)
+            if who == "self" and name not in self.fields:
+                self.fields[name] = ("opt", present, p_atom("self." + name) if present else None)
         self.delegated = False
         self.delegate_targets = []
         self.delegate_undecided = False
@@ -33,7 +39,16 @@ class Exec:
 
     # ------------------------------------------------------------------ values
     def field_val(self, name):
-        return ("poly", self.fields.get(name, p_atom("self." + name)))
+        v = self.fields.get(name)
+        if isinstance(v, tuple) and v and v[0] == "opt":
+            return v
+        return ("poly", v if v is not None else p_atom("self." + name))
+
+    def other_val(self, name):
+        k = "other." + name
+        if k in self.opt_case:
+            return ("opt", self.opt_case[k], p_atom(k) if self.opt_case[k] else None)
+        return ("poly", p_atom(k))
 
     def proj_value(self, v, proj):
         """value obtained by reading through the projection `proj` starting from value v."""
@@ -45,13 +60,33 @@ class Exec:
                     v = self.env.get(v[1])
                 elif v[0] == "selff":
                     v = self.field_val(v[1])
+                elif v[0] == "selfopt":
+                    o = self.fields.get(v[1])
+                    v = ("poly", o[2]) if o and o[0] == "opt" and o[1] else None
+                continue
+            if isinstance(e, dict) and "dc" in e:
+                # `(x as Some)`: the payload is read by the `.0` that follows
+                if v[0] == "selff":
+                    o = self.fields.get(v[1])
+                    if not (o and o[0] == "opt" and o[1]):
+                        raise Undecided("downcast of an absent Option")
+                    v = ("somewrap", ("selfopt", v[1]))
+                elif v[0] == "opt":
+                    if not v[1]:
+                        raise Undecided("downcast of an absent Option")
+                    v = ("somewrap", ("poly", v[2]))
+                else:
+                    raise Undecided("downcast of %s" % v[0])
+                continue
+            if isinstance(e, dict) and "f" in e and v[0] == "somewrap":
+                v = v[1]
                 continue
             if isinstance(e, dict) and "f" in e:
                 name = e.get("n") if e.get("n") is not None else str(e["f"])
                 if v[0] in ("self", "selfval"):
                     v = self.field_val(name)
                 elif v[0] == "other":
-                    v = ("poly", p_atom("other." + name))
+                    v = self.other_val(name)
                 elif v[0] == "tuple" and e["f"] < len(v[1]):
                     v = v[1][e["f"]]
                 else:
@@ -78,6 +113,17 @@ class Exec:
             return ("self",)
         if v is not None and v[0] == "loc" and all(e == "*" for e in proj):
             return v
+        if v is not None and v[0] == "selff" and proj and not all(e == "*" for e in proj):
+            rest = [e for e in proj if e != "*"]
+            # &mut ((*r) as Some).0 : a reference to the payload of the Option-valued field
+            if len(rest) == 2 and isinstance(rest[0], dict) and rest[0].get("dc") == "Some" and isinstance(rest[1], dict) and rest[1].get("f") == 0:
+                o = self.fields.get(v[1])
+                if not (o and o[0] == "opt" and o[1]):
+                    raise Undecided("payload of an absent Option")
+                return ("selfopt", v[1])
+            return self.proj_value(v, proj)
+        if v is not None and v[0] in ("selff", "selfopt") and all(e == "*" for e in proj):
+            return v
         if not proj and (v is None or v[0] in ("poly", "tuple")):
             return ("loc", pl["l"])
         # a reference to anything else is as good as its value
@@ -91,7 +137,15 @@ class Exec:
         if v[0] == "loc":
             return self.as_poly(self.env.get(v[1]))
         if v[0] == "selff":
-            return self.field_val(v[1])[1]
+            fv = self.field_val(v[1])
+            if fv[0] == "opt":
+                raise Undecided("an Option where a ring element is needed")
+            return fv[1]
+        if v[0] == "selfopt":
+            o = self.fields.get(v[1])
+            if not (o and o[0] == "opt" and o[1]):
+                raise Undecided("payload of an absent Option")
+            return o[2]
         if v[0] == "tuple" and len(v[1]) == 2:
             # the pair (f, x) as an addend means f*x
             return p_mul(self.as_poly(v[1][0]), self.as_poly(v[1][1]))
@@ -111,11 +165,11 @@ class Exec:
         fields = [e for e in dst["p"] if isinstance(e, dict) and "f" in e]
         if base is not None and base[0] in ("self", "selfval") and len(fields) == 1:
             name = fields[0].get("n") if fields[0].get("n") is not None else str(fields[0]["f"])
-            self.fields[name] = self.as_poly(v)
+            self.fields[name] = v if v[0] == "opt" else self.as_poly(v)
             self.own_writes = True
             return
         if base is not None and base[0] == "selff" and all(e == "*" for e in dst["p"]):
-            self.fields[base[1]] = self.as_poly(v)
+            self.fields[base[1]] = v if v[0] == "opt" else self.as_poly(v)
             self.own_writes = True
             return
         if base is not None and base[0] == "loc" and all(e == "*" for e in dst["p"]):
@@ -125,6 +179,13 @@ class Exec:
 
     def add_into(self, target, addend):
         a = self.as_poly(addend)
+        if target[0] == "selfopt":
+            o = self.fields.get(target[1])
+            if not (o and o[0] == "opt" and o[1]):
+                raise Undecided("add_assign on the payload of an absent Option")
+            self.fields[target[1]] = ("opt", True, p_add(o[2], a))
+            self.own_writes = True
+            return
         if target[0] == "selff":
             self.fields[target[1]] = p_add(self.field_val(target[1])[1], a)
             self.own_writes = True
@@ -150,6 +211,8 @@ class Exec:
                 elif k in ("use", "cast"):
                     op = rv["ops"][0]
                     if op["k"] == "const":
+                        if isinstance(op.get("val"), (int, bool)) and not st["dst"]["p"]:
+                            self.env[st["dst"]["l"]] = ("const", int(op["val"]))    # drop flags and the like
                         continue       # unit / phantom data
                     self.store(st["dst"], self.operand(op))
                 elif k == "agg":
@@ -157,10 +220,20 @@ class Exec:
                         if not rv["ops"]:
                             continue
                         self.store(st["dst"], ("tuple", [self.operand(o) for o in rv["ops"]]))
+                    elif rv.get("closure"):
+                        self.store(st["dst"], ("closure", rv["closure"], [self.operand(o) for o in rv["ops"]]))
+                    elif rv.get("adt") == "std::option::Option":
+                        if rv.get("variant") == "Some" and rv["ops"]:
+                            self.store(st["dst"], ("opt", True, self.as_poly(self.operand(rv["ops"][0]))))
+                        else:
+                            self.store(st["dst"], ("opt", False, None))
                     else:
                         raise Undecided("aggregate %s" % rv.get("adt"))
                 elif k in ("discr",):
-                    raise Undecided("branch on a discriminant")
+                    v = self.read(rv["pl"])
+                    if v is None or v[0] != "opt":
+                        raise Undecided("branch on a discriminant that is not a tracked Option")
+                    self.store(st["dst"], ("const", 1 if v[1] else 0))
                 else:
                     raise Undecided("statement kind %s" % k)
             t = x["term"]
@@ -172,6 +245,13 @@ class Exec:
                 continue
             if tk == "assert":
                 blk = t["t"]
+                continue
+            if tk == "switch":
+                v = self.operand(t["op"]) if t["op"]["k"] in ("copy", "move") else None
+                if v is None or v[0] != "const":
+                    raise Undecided("branch on a value that is not known in this case")
+                nxt = [tb for (val, tb) in t.get("targets", []) if val == v[1]]
+                blk = nxt[0] if nxt else t.get("otherwise")
                 continue
             if tk == "call":
                 self.call(t)
@@ -191,7 +271,7 @@ class Exec:
         if name == "neg" and len(args) == 1:
             self.store(t["dst"], ("poly", p_neg(self.as_poly(a0))))
             return
-        if name == "add" and len(args) == 2 and a0[0] not in ("self", "selfval"):
+        if name == "add" and len(args) == 2 and a0[0] not in ("self", "selfval", "closure-env"):
             self.store(t["dst"], ("poly", p_add(self.as_poly(a0), self.as_poly(args[1]))))
             return
         if name in ("add_assign", "add") and len(args) == 2 and a0[0] in ("self", "selfval"):
@@ -222,6 +302,37 @@ class Exec:
             return
         if name in IDENT_CALLS and len(args) == 1:
             self.store(t["dst"], a0)
+            return
+        if name == "empty" and not args:
+            self.store(t["dst"], ("poly", {}))          # the neutral element of the randomness type
+            return
+        if name in ("as_ref", "as_mut", "cloned", "copied", "as_deref") and len(args) == 1:
+            self.store(t["dst"], a0)
+            return
+        if name == "unwrap_or" and len(args) == 2:
+            o = self.field_val(a0[1]) if a0[0] == "selff" else a0
+            if o[0] != "opt":
+                raise Undecided("unwrap_or on %s" % o[0])
+            self.store(t["dst"], ("poly", o[2]) if o[1] else ("poly", self.as_poly(args[1])))
+            return
+        if name == "map" and len(args) == 2 and args[1] is not None and args[1][0] == "closure":
+            o = self.field_val(a0[1]) if a0[0] == "selff" else a0
+            if o[0] != "opt":
+                raise Undecided("map on %s" % o[0])
+            if not o[1]:
+                self.store(t["dst"], ("opt", False, None))
+                return
+            kb = self.f.bodies.get(args[1][1])
+            if kb is None or self.depth > 3:
+                raise Undecided("closure body not available")
+            sub = Exec(self.f, kb, "plain", by_value=False, self_fields={}, depth=self.depth + 1)
+            sub.env = {1: ("closure-env",), 2: ("poly", o[2])}
+            for kk, u in kb.upvar_locals.items():
+                if kk < len(args[1][2]):
+                    cv = args[1][2][kk]
+                    sub.env[u] = ("poly", self.as_poly(cv)) if cv is not None and cv[0] in ("loc", "selff") else cv
+            sub.run()
+            self.store(t["dst"], ("opt", True, sub.as_poly(sub.env.get(0))))
             return
         raise Undecided("call of %s" % (t.get("callee") or "?"))
 
